@@ -92,7 +92,8 @@ Proof. reflexivity. Qed.
 Lemma walker_print (hopon : bool) (step : N) :
   forall t d, beautify_walker hopon step t d = print_trees step d (flatten hopon t).
 Proof.
-  induction t using instr_ind'; intros d.
+  induction t as [t H | t1 t2 IHt1 IHt2 | t1 t2 IHt1 IHt2 | t1 t2 IHt1 IHt2 | x l r t IHt | x l r t IHt
+                  | x it i t last sp IHt H | x it i t last sp IHt H | x it i t last sp IHt H | x a t sp IHt] using instr_ind'; intros d.
   - destruct t; try discriminate; reflexivity.
   - cbn [beautify_walker flatten]. rewrite print_trees_app, IHt1, IHt2. reflexivity.
   - cbn [beautify_walker flatten]. rewrite print_trees_single, IHt1, IHt2. reflexivity.
@@ -129,7 +130,8 @@ Proof. destruct a; [discriminate | reflexivity]. Qed.
 Lemma flatten_wf (hopon : bool) :
   forall t, nonempty (flatten hopon t) = true /\ forallb tree_wf (flatten hopon t) = true.
 Proof.
-  induction t using instr_ind'.
+  induction t as [t H | t1 t2 IHt1 IHt2 | t1 t2 IHt1 IHt2 | t1 t2 IHt1 IHt2 | x l r t IHt | x l r t IHt
+                  | x it i t last sp IHt H | x it i t last sp IHt H | x it i t last sp IHt H | x a t sp IHt] using instr_ind'.
   - destruct t; try discriminate; split; reflexivity.
   - destruct IHt1 as [n1 w1], IHt2 as [n2 w2]. cbn [flatten]. split.
     + apply nonempty_app, n1.
@@ -235,7 +237,7 @@ Qed.
 
 Lemma layout_tree step : 0 < step -> forall t, layout_P step t.
 Proof.
-  intros Hs. induction t using tree_ind'; intros d S HS.
+  intros Hs. induction t as [x | l r H H0 | l r H H0 | h b H | h b l H H0] using tree_ind'; intros d S HS.
   - cbn [print_tree gnodes_tree fold_right]. rewrite add_line_leaf by exact HS. reflexivity.
   - cbn [print_tree gnodes_tree fold_right].
     rewrite fold_add_app. cbn [fold_right].
@@ -404,7 +406,7 @@ Qed.
 
 Lemma read_tree step : forall t, read_P step t.
 Proof.
-  induction t using tree_ind'; intros Hw Ht d rest Hr.
+  induction t as [x | l r H H0 | l r H H0 | h b H | h b l H H0] using tree_ind'; intros Hw Ht d rest Hr.
   - (* leaf *)
     cbn [tree_texts_ok] in Ht. apply line_ok_facts in Ht. destruct Ht as (E1 & E2 & E3 & _).
     cbn [gnodes_tree app]. rewrite items_cons. cbn [g_txt g_kids].
@@ -551,7 +553,7 @@ Qed.
 
 Lemma safe_tree step : forall t, safe_P step t.
 Proof.
-  induction t using tree_ind'; intros Ht d; cbn [tree_texts_ok] in Ht; cbn [print_tree].
+  induction t as [x | l r H H0 | l r H H0 | h b H | h b l H H0] using tree_ind'; intros Ht d; cbn [tree_texts_ok] in Ht; cbn [print_tree].
   - constructor; [| constructor]. apply line_ok_facts in Ht. tauto.
   - apply andb_true_iff in Ht. destruct Ht as [Hl Hr].
     constructor; [reflexivity|]. apply Forall_app. split; [apply (safe_list step l H Hl)|].
@@ -608,7 +610,7 @@ Proof. lia. Qed.
 
 Lemma listing_tree step : forall t, listing_P step t.
 Proof.
-  induction t using tree_ind'; intros Ht k; cbn [tree_texts_ok] in Ht; cbn [print_tree tree_listing].
+  induction t as [x | l r H H0 | l r H H0 | h b H | h b l H H0] using tree_ind'; intros Ht k; cbn [tree_texts_ok] in Ht; cbn [print_tree tree_listing].
   - apply line_ok_facts in Ht. rewrite instruction_lines_keep by tauto. reflexivity.
   - apply andb_true_iff in Ht. destruct Ht as [Hl Hr].
     rewrite step_succ.
@@ -654,7 +656,7 @@ Qed.
 
 Lemma indent_tree step : forall t, indent_P step t.
 Proof.
-  induction t using tree_ind'; intros k; cbn [gnodes_tree forallb indents_ok]; rewrite ?N.eqb_refl; cbn [andb].
+  induction t as [x | l r H H0 | l r H H0 | h b H | h b l H H0] using tree_ind'; intros k; cbn [gnodes_tree forallb indents_ok]; rewrite ?N.eqb_refl; cbn [andb].
   - reflexivity.
   - rewrite step_succ. fold (gnodes step (step * (k + 1)) l). fold (gnodes step (step * (k + 1)) r).
     rewrite (indent_list step l H), (indent_list step r H0). reflexivity.
@@ -694,7 +696,8 @@ Lemma no_overflow (hopon : bool) (step : N) :
   forall t indent, indent + step * forest_depth (flatten hopon t) <= usize_max ->
                    walker_overflows hopon step t indent = false.
 Proof.
-  induction t using instr_ind'; intros indent Hb.
+  induction t as [t H | t1 t2 IHt1 IHt2 | t1 t2 IHt1 IHt2 | t1 t2 IHt1 IHt2 | x l r t IHt | x l r t IHt
+                  | x it i t last sp IHt H | x it i t last sp IHt H | x it i t last sp IHt H | x a t sp IHt] using instr_ind'; intros indent Hb.
   - destruct t; try discriminate; reflexivity.
   - cbn [flatten] in Hb. rewrite forest_depth_app in Hb. cbn [walker_overflows].
     pose proof (mul_step_le step (forest_depth (flatten hopon t1)) _ (N.le_max_l _ (forest_depth (flatten hopon t2)))).
